@@ -834,6 +834,18 @@ func (e *Env) evalCall(n *ECall) SVal {
 		a, b := e.unify(arg(0), arg(1))
 		a, b = e.concrete(a), e.concrete(b)
 		return boolV(eq(a.T, b.T))
+	case "box":
+		// box(x): the interface value holding x
+		v := e.concrete(arg(0))
+		name := "box_" + sortID(v.T.Sort)
+		x.w.declareUF(name, []Sort{v.T.Sort}, SRef)
+		return SVal{T: T(SRef, "(%s %s)", name, v.T.S), Ty: goT(types.NewInterfaceType(nil, nil))}
+	case "cbpost":
+		// cbpost(q, d): the walkpost predicate of the callback passed at this call (true when it declares none)
+		if x.cbPred == "" {
+			return boolV(tTrue)
+		}
+		return e.eval(&ECall{Fn: x.cbPred, Args: n.Args})
 	case "allocated":
 		v := arg(0)
 		r := v.T
@@ -961,6 +973,23 @@ func (e *Env) evalCall(n *ECall) SVal {
 		}
 		c.pkg = ppkg
 		c.fn = nil
+		if pd.Body == nil {
+			rt := x.resolveType(pd.Ret, ppkg)
+			var as []Sort
+			var ss []string
+			for _, p := range pd.Params {
+				v := e.concrete(c.vars[p.Name])
+				as = append(as, v.T.Sort)
+				ss = append(ss, v.T.S)
+			}
+			uf := "sf_" + sanitize(pd.Name)
+			rs := x.w.sortOfS(rt)
+			x.w.declareUF(uf, as, rs)
+			if len(ss) == 0 {
+				return SVal{T: T(rs, "%s", uf), Ty: rt}
+			}
+			return SVal{T: T(rs, "(%s %s)", uf, strings.Join(ss, " ")), Ty: rt}
+		}
 		r := c.eval(pd.Body)
 		if pd.Ret != "bool" {
 			rt := x.resolveType(pd.Ret, ppkg)
